@@ -9,12 +9,16 @@ import (
 	stdlog "log"
 	"sort"
 	"strings"
+	"testing/fstest"
 
 	"github.com/bufbuild/protocompile"
 	"github.com/bufbuild/protocompile/linker"
+	"github.com/pentops/j5/gen/j5/source/v1/source_j5pb"
 	"github.com/pentops/j5/internal/j5s/protobuild"
 	"github.com/pentops/j5/internal/j5s/protoprint"
+	"github.com/pentops/j5/internal/protosrc"
 	"github.com/pentops/log.go/log"
+	"google.golang.org/protobuf/reflect/protodesc"
 	"google.golang.org/protobuf/reflect/protoregistry"
 	"google.golang.org/protobuf/types/descriptorpb"
 
@@ -135,4 +139,23 @@ func Reparse(texts map[string]string, paths ...string) (linker.Files, error) {
 		SourceInfoMode: protocompile.SourceInfoStandard,
 	}
 	return compiler.Compile(context.Background(), paths...)
+}
+
+// ReadImage runs the production path for generated .proto text: the files are
+// laid out in an in-memory bundle root, protosrc.ReadFSImage compiles every
+// .proto it finds, and the image is linked the way structure.APIFromImage does.
+func ReadImage(texts map[string]string) (*source_j5pb.SourceImage, *protoregistry.Files, error) {
+	fsys := fstest.MapFS{}
+	for name, text := range texts {
+		fsys[name] = &fstest.MapFile{Data: []byte(text)}
+	}
+	img, err := protosrc.ReadFSImage(context.Background(), fsys, nil, protocompile.CompositeResolver{})
+	if err != nil {
+		return nil, nil, err
+	}
+	files, err := protodesc.NewFiles(&descriptorpb.FileDescriptorSet{File: img.File})
+	if err != nil {
+		return img, nil, err
+	}
+	return img, files, nil
 }
